@@ -228,10 +228,11 @@ def run_history_case(col, case):
         hist = [symx.choose(h, 0, nq, free=True) for h in H]
         hist = hist + [hist[0]]          # (q, r, [s,] q): q is observed before and after every other query, and repeated
         holder['history'] = [Q[i][0] for i in hist]
+        symx.ENGINE.notes.append(('_replay', {'history_names': list(holder['history'])}))
         with warnings.catch_warnings():
             warnings.simplefilter('ignore')
             problems, items = R.run_history(B, case, recs, elems, hist)
-        return problems_claims(problems, items, {'history': ' ; '.join(holder['history'])[:200]})
+        return problems_claims(problems, items, {'history': ' ; '.join(holder['history'])[:200], '_replay': {'history_names': list(holder['history'])}})
 
     def make_replay(vals, name):
         d = {k: case[k] for k in case if k != 'profile_seed'}
